@@ -27,7 +27,48 @@ def gen_case(rng, idx, tier):
     kinds = ['lp', 'lp', 'lp', 'conic', 'conic', 'ro', 'ro']
     if SRC.HAS_DRO:
         kinds.append('dro')
+    if rng.random() < 0.06:
+        # models made of exponential-cone constraints only (no row, no bound, no second-order
+        # cone), grown in two steps with a dual formulation in between: the second dual has to
+        # be the dual of the grown model
+        n = int(rng.integers(1, 4))
+        return {'kind': 'pureexp', 'spec': {
+            'n': n, 'a': np.round(rng.uniform(0.5, 2.0, n), 2).tolist(),
+            'b': np.round(rng.uniform(-0.5, 0.5, n), 2).tolist(),
+            'w': np.round(rng.uniform(0.5, 2.0, n), 2).tolist(),
+            'c': np.round(rng.uniform(0.1, 0.8, n), 2).tolist(),
+            'late': ['log', 'exp', 'entropy'][int(rng.integers(3))],
+            'mid': ['dual', 'both', 'solve'][int(rng.integers(3))]}}
     return SRC.gen(rng, tier, kinds=kinds, ints=False)
+
+
+class _PB:
+    pass
+
+
+def build_pureexp(sp):
+    import rsome as rso
+    from rsome import ro
+    m = ro.Model()
+    n = sp['n']
+    x, u, v = m.dvar(n), m.dvar(n), m.dvar(n)
+    a, b, w, c = (np.array(sp[k], float) for k in 'abwc')
+    m.min(w @ u + w @ v)
+    m.st(rso.exp(a * x + b) <= u)
+    m.st(rso.exp(-(a * x) + b) <= v)
+    if sp['mid'] in ('dual', 'both'):
+        m.do_math(primal=False)
+    if sp['mid'] in ('both', 'solve'):
+        m.do_math()
+    if sp['late'] == 'log':
+        m.st(rso.log(x) >= c)                   # x >= exp(c) > 0: moves the optimum
+    elif sp['late'] == 'exp':
+        m.st(rso.exp(-x) <= c)                  # x >= -log(c)
+    else:
+        m.st(rso.entropy(x) >= -c)              # keeps x in (0, about 1]
+    B = _PB()
+    B.model = m
+    return B
 
 
 def solve_all(f, ctx, tag):
@@ -60,7 +101,7 @@ def solve_all(f, ctx, tag):
 def run_case(spec, ctx):
     src = spec
     try:
-        B = SRC.build(src)
+        B = build_pureexp(src['spec']) if src['kind'] == 'pureexp' else SRC.build(src)
         fp = B.model.do_math()
         fd = B.model.do_math(primal=False)
     except Exception as e:
